@@ -218,8 +218,25 @@ class Gen:
             inner()
             self.emit(d, "end select")
 
+    def block_pair(self, parent, d, visible):
+        """two unnamed sibling BLOCKs whose BLOCK statements stand on the same source line (';'): their tables must
+        not be confused with one another"""
+        r = self.r
+        a, b = Scope("block", None), Scope("block", None)
+        parent.children.extend([a, b])
+        self.nscopes += 2
+        n1 = r.choice(SHADOW)[0]
+        a.decls.append(n1)
+        first = "block; integer :: %s; %s = %s; end block" % (n1, r.choice(PLAIN), self.ref(visible | {n1}))
+        self.emit(d, first + "; block")
+        self.decls(b, d + 1, visible)
+        self.emit(d + 1, "%s = %s" % (r.choice(PLAIN), self.ref(visible | set(b.decls))))
+        self.emit(d, "end block")
+
     def block(self, parent, d, visible, depth_left):
         r = self.r
+        if r.random() < 0.12:
+            return self.block_pair(parent, d, visible)
         name = self.nm("blk") if r.random() < 0.4 else None
         sc = Scope("block", name)
         parent.children.append(sc)
@@ -261,7 +278,7 @@ class Gen:
         kinds = [r.choice(["module", "module", "subroutine", "function", "blockdata"] + (["submodule"] if self.std == "f2008" else []))
                  for _ in range(r.randint(0, 2))]
         main = r.random() < 0.6
-        bare = main and not kinds and r.random() < 0.3
+        bare = main and r.random() < (0.3 if not kinds else 0.2)     # a PROGRAM-less main program, also after other units
         for k in kinds:
             if k in ("module", "submodule"):
                 name = self.nm("mo")
